@@ -109,7 +109,7 @@ func Judge(p *prog.Program, ops []prog.Op, b *crash.Boundary, fs *fsmodel.FS, wo
 	}
 	dir, err := crash.Materialize(fs, work)
 	if err != nil {
-		panic(err)
+		panic(h.Infra{Msg: "harness file operation failed: " + err.Error()})
 	}
 	defer os.RemoveAll(dir)
 	got, oerr := crash.ReadAll(dir, p.Keys, true)
